@@ -84,7 +84,9 @@ func DetermineEncoding(content []byte, contentType string) (e encoding.Encoding,
 			break
 		}
 		if utf8.RuneStart(b) {
-			content = content[:i]
+			if !utf8.FullRune(content[i:]) {
+				content = content[:i]
+			}
 			break
 		}
 	}
